@@ -129,6 +129,7 @@ class Sched:
         self.preemptions: list[tuple] = []
         self.ep_counter = 0
         self.describe_payload: Callable[[Any], Any] = lambda o: None
+        self.on_qget: Callable[[Any], None] = lambda item: None
 
     # ---------------------------------------------------------------- ids
     def cur(self) -> SimThread | None:
@@ -802,12 +803,16 @@ def make_queue_class(sched: Sched) -> type:
             ok = sched.park('qget', lambda: len(self.d) > 0, None, sleep=timeout)
             if not ok or not self.d:
                 raise _queue.Empty()
-            return self.d.popleft()
+            item = self.d.popleft()
+            sched.on_qget(item)
+            return item
 
         def get_nowait(self) -> Any:
             if not self.d:
                 raise _queue.Empty()
-            return self.d.popleft()
+            item = self.d.popleft()
+            sched.on_qget(item)
+            return item
 
         def empty(self) -> bool:
             return not self.d
